@@ -55,6 +55,7 @@ def run(ctx: Ctx) -> None:
     low_power(ctx, py, rs)
     pending_not_lost(ctx, py, rs)
     reti_source_stable(ctx, rs)
+    reti_clears_delivered(ctx, rs)
 
 
 # ---------------------------------------------------------------------------
@@ -828,3 +829,50 @@ def reti_source_stable(ctx: Ctx, rs: RustProgram) -> None:
                               "request's status bit (the request is lost without being taken) and leaves the delivered one set (its handler is entered again)", f"{step.file}:{c['ln']}")
     ctx.instance("C12.2/reti-source-stable", "calls from CoreRuntime::step to TimerContext methods that re-point irq_source on expiry: each only outside interrupt context", n, 1)
     ctx.sample({"irq_source_assigning_methods": sorted(firing)})
+
+
+def reti_clears_delivered(ctx: Ctx, rs: RustProgram) -> None:
+    """The status bit the Rust RETI epilogue clears is the one that was *delivered*: the mask it takes apart (`if let Some(m) = <mask>`)
+    in front of the ISR store is an `a.or(b).or_else(c)` chain of alternatives; the first must be the per-delivery record
+    (`delivered_masks`, pushed by deliver_pending_irq), not `irq_source`, which host code (press_on_key) and the per-step arming
+    re-point at KEY/ONK while a handler runs - RETI would then clear a request that was never taken."""
+    step = rs.fn(isa.LIB_RS, "CoreRuntime::step")
+    clos = [c for c in walk(step.body) if c.get("k") == "closure" and any(rs_is_mcall(n, "execute", "self.executor") for n in walk(c["body"]))]
+    ctx.need(len(clos) >= 1, "CoreRuntime::step: closure containing executor.execute not found")
+    clo = clos[0]
+    g = cfgmod.build_rs_closure(clo, "CoreRuntime::step::closure")
+    d = rs_defs(clo["body"])
+    n = 0
+    for st in walk(clo["body"]):
+        if not (st.get("k") == "mcall" and st["m"] == "store" and st["args"] and any("ISR" in x.upper() for x in rs_leaves(st["args"][0], d))):
+            continue
+        node = g.node_of(st)
+        if node is None:
+            continue
+        gs = [(a, pol) for a, pol, _o in g.guards_of(node) if isinstance(a, dict)]
+        if not any(pol and expr_text(a).replace(" ", "") in ("opcode==1", "opcode==0x01") for a, pol in gs):
+            continue            # not the RETI epilogue
+        for a, pol in gs:
+            if not (a.get("k") == "let_cond" and pol and a["e"].get("k") == "path"):
+                continue
+            for df in d.get(a["e"]["p"], []):
+                if not isinstance(df, dict):
+                    continue
+                chain = []
+                e = df
+                while e.get("k") == "mcall" and e["m"] in ("or", "or_else") and e["args"]:
+                    chain.append(e["args"][0])
+                    e = e["recv"]
+                chain.append(e)
+                chain.reverse()
+                leaves = [rs_leaves(c, d) for c in chain]
+                if not any(any("delivered_masks" in x for x in lv) for lv in leaves):
+                    continue        # some other optional value on the path
+                n += 1
+                first = leaves[0]
+                if not any("delivered_masks" in x for x in first):
+                    what = "irq_source" if any("irq_source" in x for x in first) else expr_text(chain[0])[:50]
+                    ctx.violation("C12.2/reti-clears-delivered", key_of(step.file, "CoreRuntime::step", "RETI clears the bit named by irq_source before the delivery record"),
+                                  f"the RETI epilogue clears the status bit taken first from `{what}` and only then from the mask recorded at delivery: press_on_key / arm_pending_irq_from_isr re-point irq_source while a handler "
+                                  "runs, so RETI clears a request that was never delivered (it is lost) and leaves the delivered one set (its handler runs again)", f"{step.file}:{st['ln']}")
+    ctx.instance("C12.2/reti-clears-delivered", "RETI epilogue of CoreRuntime::step: the cleared mask comes from the delivery record first", n, 1)
